@@ -215,3 +215,7 @@ v("C17", S, "        if self.command == j1939.Command.WRITE.value:\n            
 v("C01,C10", J21, "            buffer_hash = self._buffer_hash(src_address, dest_address)\n            if buffer_hash in self._snd_buffer:", "            buffer_hash = self._buffer_hash(src_address, pdu_specific)\n            if buffer_hash in self._snd_buffer:", "break", "PDU2 broadcast booked on (src, group extension) (seeded C10B)")
 v("C01,C09", J21, "'next_packet': min(self._max_cmdt_packets, max_num_packages),", "'next_packet': min(self._max_cmdt_packets, num_packages),", "break", "border ignores the RTS window (seeded C01B)")
 v("C01,C02", ECU, "return self.j1939_dll.send_pgn(data_page, pdu_format, pdu_specific, priority, src_address, data, time_limit, frame_format)", "return self.j1939_dll.send_pgn(data_page, pdu_format, pdu_specific, src_address, priority, data, time_limit, frame_format)", "break", "priority and source address swapped in the forwarder")
+v("C01,C03", J21, "                            data = buf['data'][offset:]\n                            if len(data)>7:\n                                data = data[:7]\n                            else:\n                                while len(data)<7:\n                                    data.append(255)\n                            data.insert(0, package+1)\n",
+  "                            chunk = list(buf['data'][offset:offset + 7])\n                            chunk = chunk + [255] * (7 - len(chunk))\n                            data = [package + 1] + chunk\n", "keep", "slice + concatenation padding idiom instead of truncate/pad loop")
+v("C01,C03", J21, "                            data = buf['data'][offset:]\n                            if len(data)>7:\n                                data = data[:7]\n                            else:\n                                while len(data)<7:\n                                    data.append(255)\n                            data.insert(0, package+1)\n",
+  "                            chunk = list(buf['data'][offset:offset + 7])\n                            chunk = chunk + [255] * (8 - len(chunk))\n                            data = [package + 1] + chunk\n", "break", "same idiom padding to 8 data bytes")
